@@ -270,7 +270,8 @@ Theorem finish_ok : forall hdr ptr sc nw T0 tbl t,
   wf_root t = true -> lay T0 t 0 1 -> length T0 = size t -> Forall (fun y => length y = N_node) T0 ->
   exists G, finish_pi_dag hdr ptr sc nw T0 tbl = Ok G /\ dag_wf G /\ flat_ok t G /\
             gsc G = sc /\ gnw G = nw /\ gS G = st_flatten hdr ptr tbl /\
-            Forall2 (fun y x => shape y = shape x) (gT G) T0.
+            Forall2 (fun y x => shape y = shape x) (gT G) T0 /\
+            exists ps, gT G = set_ptrs T0 ps /\ length ps = length T0.
 Proof.
   intros hdr ptr sc nw T0 tbl t Hroot HL0 Hlen0 HN0.
   destruct (wf_root_inv t Hroot) as (Hw & _).
@@ -325,7 +326,8 @@ Proof.
       rewrite Hps in Hp. rewrite nth_error_map_zrange in Hp by exact Hi. injection Hp as <- <-. now split.
   - unfold flat_ok. cbn [gT gE]. split; [exact HL1|]. split; [exact Hlen1|]. split; [exact HN1|].
     exists E. split; [exact Hperm | exact Hspec].
-  - cbn [gsc gnw gS gT]. split; [reflexivity|]. split; [reflexivity|]. split; [reflexivity | exact Hsh1].
+  - cbn [gsc gnw gS gT]. split; [reflexivity|]. split; [reflexivity|]. split; [reflexivity|]. split; [exact Hsh1|].
+    exists (edge_ptrs n m Es). split; [reflexivity | exact Hpl].
 Qed.
 
 Theorem flatten_wf : forall hdr ptr sc nw t, wf_root t = true ->
